@@ -97,6 +97,9 @@ def run(chk):
     buffers(chk, repo, ms, f)
     success_protocol(chk, repo, ms, f)
     totality(chk, repo)
+    status_discipline(chk, repo, ms, f)
+    length_guards(chk, repo, ms)
+    chk.floor('R06.5', 2); chk.floor('R06.6', 4)
     chk.floor('R06.1', 5); chk.floor('R06.2', 20); chk.floor('R06.3', 8); chk.floor('R06.4', 10)
 
 
@@ -125,6 +128,48 @@ def typestate(chk, repo, ms, f, noexcept):
     a1 = [ast.unparse(a) for a in c1.args]; a2 = [ast.unparse(a) for a in c2.args]
     chk.ob('R06.1', f'{restorer} is called with the same arrays and scales as {scaler}', a1 == a2, f'{a1} vs {a2}', ms.where(c2), method='call-site argument agreement')
     # restorer undoes scaler: each array is divided by c_k in one and multiplied by the same c_k in the other (checked algebraically in C03 R03.1)
+    # ... and unconditionally: the in-place stores of both functions may be skipped only depending on the array length, never on the arrays' contents or scales
+    for fname in (scaler, restorer):
+        fn_ = next(fn__ for name, fn__, cls in repo.functions(md) if name == fname)
+        params = {p.arg for p in fn_.args.args}
+        ptr_params = sets[fname]
+        # local def-use: name -> expressions assigned to it
+        defs = {}
+        for n in ast.walk(fn_):
+            if isinstance(n, ast.Assign):
+                for t in n.targets:
+                    if isinstance(t, ast.Name): defs.setdefault(t.id, []).append(n.value)
+            if isinstance(n, ast.AugAssign) and isinstance(n.target, ast.Name):
+                defs.setdefault(n.target.id, []).append(n.value)
+
+        def data_dep(e, seen):
+            for x in ast.walk(e):
+                if isinstance(x, ast.Subscript) and isinstance(x.value, ast.Name) and x.value.id in params and isinstance(x.ctx, ast.Load):
+                    return f'{ast.unparse(x)}'
+                if isinstance(x, ast.Name) and x.id in defs and x.id not in seen:
+                    seen.add(x.id)
+                    for dv in defs[x.id]:
+                        r = data_dep(dv, seen)
+                        if r: return f'{x.id} <- {r}'
+                if isinstance(x, ast.Name) and x.id in params and not x.id.startswith(('num_', 'n_')) and x.id not in ptr_params and x.id not in seen:
+                    # a scalar parameter other than a length (a scale such as mean_radius): comparing data with it is data dependence too
+                    return x.id
+            return None
+        offenders = []
+        def walk(stmts, conds):
+            for st in stmts:
+                if isinstance(st, ast.If):
+                    walk(st.body, conds + [st.test]); walk(st.orelse, conds + [st.test])
+                elif isinstance(st, (ast.For, ast.While)):
+                    walk(st.body, conds + ([st.test] if isinstance(st, ast.While) else []))
+                elif isinstance(st, ast.AugAssign) and isinstance(st.target, ast.Subscript) and ast.unparse(st.target.value) in ptr_params:
+                    for c_ in conds:
+                        r = data_dep(c_, set())
+                        if r:
+                            offenders.append(f'line {st.lineno}: `{ast.unparse(st)[:50]}` is skipped depending on `{ast.unparse(c_)[:50]}` ({r})')
+        walk(fn_.body, [])
+        chk.ob('R06.1', f'{fname}: every in-place store to the caller\'s arrays is unconditional (may depend on the array length only, never on array contents or scale factors)', not offenders,
+               '; '.join(offenders[:3]), md.where(fn_), key=f'R06.1|{fname}|unconditional', method='control-dependence / def-use lint')
     f2 = prune_flags(f, {'nondimensionalize': True})
     types = var_types(ms, f)
     may_raise = make_may_raise(noexcept, types)
@@ -183,7 +228,7 @@ def buffers(chk, repo, ms, f):
     G = X.atom('G', 'pos'); g = X.atom('g', 'pos')
     for (kind, static) in (('solid', False), ('liquid', False), ('liquid', True)):
         I.OOB_LOG.clear()
-        it = Interp(repo, hooks={'call': lambda itp, fn_, a, k, e, fr: (None if str(getattr(fn_, 'name', '')).endswith('zgesv') else NotImplemented)})
+        it = Interp(repo, hooks={'call': lambda itp, fn_, a, k, e, fr: (None if 'cython_lapack' in str(getattr(fn_, 'name', '')) else NotImplemented)})
         Ytop = Arr('ytop', default=lambda k: X.atom(f'Y{k}', 'complex')); Ytop.extent = 18
         bc = Arr('bc', default=lambda k: X.atom(f'bc{k}')); bc.extent = 15
         cvec = Arr('const'); cvec.extent = 3
@@ -427,3 +472,127 @@ def totality(chk, repo):
                         ok = True; how = 'raises'
                     chk.ob('R06.4', f'cf_find_starting_conditions(layer_type={lt}, static={st}, incompressible={ic}, kamata={kam}) reaches a handler or raises', ok, 'returns without writing starting values', md.where(fd),
                            method='partial evaluation')
+
+
+# ------------------------------------------------------------------------------------------------ R06.5 / R06.6
+def status_discipline(chk, repo, ms, f):
+    """R06.5: the status word of the surface solve is (a) not overwritten before it has been looked at, inside cf_apply_surface_bc, and (b) tested by the solver
+    before the solution is used.  A factorisation status silently replaced by the status of a later call turns a singular surface system into success=True."""
+    from ..frontend.cfg import CFG
+    import networkx as nx
+    mb = repo.by_path('TidalPy/RadialSolver/boundaries/boundaries.pyx')
+    fb = need_func(mb, 'cf_apply_surface_bc')
+    types = var_types(mb, fb)
+    status = {nm for nm, t in types.items() if t.replace(' ', '') == 'int*' and nm in {a.arg for a in fb.args.args}}
+    repo_funcs = set()
+    for dotted in repo.all_modules():
+        mod = repo.module(dotted)
+        if mod is None: continue
+        repo_funcs |= {k for k, v in mod.defs.items() if isinstance(v, ast.FunctionDef)}
+    cfg = CFG(fb); G = cfg.G
+    writers = {}       # status name -> [cfg node]
+    readers = {}       # status name -> {cfg node}
+    for n, dct in G.nodes(data=True):
+        st = dct.get('stmt')
+        if st is None: continue
+        hdr = st.test if isinstance(st, (ast.If, ast.While)) else (st.iter if isinstance(st, ast.For) else st)
+        if isinstance(st, (ast.Try, ast.With, ast.FunctionDef)): continue
+        for c in ast.walk(hdr):
+            if isinstance(c, ast.Call) and isinstance(c.func, ast.Name) and c.func.id not in repo_funcs and c.func.id not in C_PURE:
+                for a in c.args:
+                    if isinstance(a, ast.Name) and a.id in status:
+                        writers.setdefault(a.id, []).append(n)
+            if isinstance(c, ast.Subscript) and isinstance(c.value, ast.Name) and c.value.id in status and isinstance(c.ctx, ast.Load):
+                readers.setdefault(c.value.id, set()).add(n)
+    if not writers:
+        raise AnalysisError(f'{mb.where(fb)}: no external call receives the status pointer of cf_apply_surface_bc ({sorted(status)})')
+    for nm, ws in writers.items():
+        bad = []
+        for w1 in ws:
+            H = G.copy()
+            H.remove_nodes_from([r for r in readers.get(nm, ()) if r != w1])
+            for w2 in ws:
+                if w2 == w1 and not any(True for _ in nx.simple_cycles(nx.DiGraph([(u, v) for u, v in H.edges() if u == w1 or v == w1]))):
+                    continue
+                if w2 != w1 and w1 in H and w2 in H and nx.has_path(H, w1, w2):
+                    bad.append((G.nodes[w1]['stmt'].lineno, G.nodes[w2]['stmt'].lineno))
+        chk.ob('R06.5', f'cf_apply_surface_bc: the status written through `{nm}` by an external (LAPACK) call is examined before another call overwrites it', not bad,
+               '; '.join(f'status of the call at line {a_} is overwritten by the call at line {b_} without having been read (a failed factorisation would be reported as the later call\'s success)' for a_, b_ in bad[:3]),
+               mb.where(fb), key=f'R06.5|cf_apply_surface_bc|{nm}', method='CFG reachability between status writers avoiding status readers')
+    # (b) caller: after the call the status variable is tested before `success` can be set
+    calls = [n for n in ast.walk(f) if isinstance(n, ast.Call) and isinstance(n.func, ast.Name) and n.func.id == 'cf_apply_surface_bc']
+    if not calls:
+        raise AnalysisError('cf_radial_solver: call of cf_apply_surface_bc vanished')
+    pos = [a.arg for a in fb.args.args]
+    for c in calls:
+        svars = []
+        for a, pn in zip(c.args, pos):
+            if pn in status:
+                for x in ast.walk(a):
+                    if isinstance(x, ast.Name) and x.id != '__addr__': svars.append(x.id)
+        if not svars:
+            raise AnalysisError(f'{ms.where(c)}: status argument of cf_apply_surface_bc not identified')
+        sv = svars[0]
+        scfg = CFG(f); SG = scfg.G
+        cnode = None; tests = set(); succ = set()
+        for n, dct in SG.nodes(data=True):
+            st = dct.get('stmt')
+            if st is None: continue
+            if isinstance(st, ast.Expr) and st.value is c or (not isinstance(st, (ast.If, ast.For, ast.While, ast.Try, ast.With)) and any(x is c for x in ast.walk(st))):
+                cnode = n
+            if isinstance(st, ast.If) and any(isinstance(x, ast.Name) and x.id == sv for x in ast.walk(st.test)):
+                tests.add(n)
+            if isinstance(st, ast.Assign) and any(isinstance(t, ast.Attribute) and t.attr == 'success' for t in st.targets) and ast.unparse(st.value) == 'True':
+                succ.add(n)
+        if cnode is None or not succ:
+            raise AnalysisError(f'{ms.where(c)}: could not place the surface solve / success assignment in the CFG of cf_radial_solver')
+        H = SG.copy(); H.remove_nodes_from(tests)
+        reach = [s_ for s_ in succ if s_ in H and nx.has_path(H, cnode, s_)]
+        chk.ob('R06.5', f'cf_radial_solver: `{sv}` (status of the surface solve) is tested on every path from the solve to `success = True`', not reach,
+               'success can be set without the LAPACK status having been looked at', ms.where(c), key='R06.5|cf_radial_solver|status tested', method='CFG reachability avoiding the status tests')
+
+
+def length_guards(chk, repo, ms):
+    """R06.6: every array the Python entry point hands to the C solver by pointer (&x[0]) has had its length compared with the radius array's before the call,
+    on every path (assert or if/raise).  With boundscheck off, an unchecked shorter array is read and scaled past its end."""
+    fw = need_func(ms, 'radial_solver')
+    calls = [n for n in ast.walk(fw) if isinstance(n, ast.Call) and isinstance(n.func, ast.Name) and n.func.id == 'cf_radial_solver']
+    if not calls:
+        raise AnalysisError('radial_solver: call of cf_radial_solver vanished')
+    c = calls[0]
+    params = {a.arg for a in fw.args.args + fw.args.kwonlyargs}
+    handed = []
+    for a in c.args:
+        # __addr__ * name[0]   (the rewritten form of &name[0])
+        if isinstance(a, ast.BinOp) and isinstance(a.left, ast.Name) and a.left.id == '__addr__' and isinstance(a.right, ast.Subscript) and isinstance(a.right.value, ast.Name):
+            if a.right.value.id in params:
+                handed.append(a.right.value.id)
+    if len(handed) < 4:
+        raise AnalysisError(f'radial_solver: expected at least 4 caller arrays handed to cf_radial_solver by pointer, found {handed}')
+    # the reference length: `<v> = <array>.size`; guards: assert X.size == v  /  if X.size != v: raise
+    size_vars = {}
+    for st in fw.body:
+        if isinstance(st, ast.Assign) and len(st.targets) == 1 and isinstance(st.targets[0], ast.Name) and isinstance(st.value, ast.Attribute) and st.value.attr == 'size' \
+                and isinstance(st.value.value, ast.Name) and st.value.value.id in params:
+            size_vars[st.targets[0].id] = st.value.value.id
+    guarded = set(size_vars.values())
+
+    def cmp_names(test, ops):
+        out = []
+        if isinstance(test, ast.Compare) and len(test.ops) == 1 and isinstance(test.ops[0], ops):
+            sides = [test.left, test.comparators[0]]
+            arrs = [s_.value.id for s_ in sides if isinstance(s_, ast.Attribute) and s_.attr == 'size' and isinstance(s_.value, ast.Name)]
+            refs = [s_.id for s_ in sides if isinstance(s_, ast.Name) and s_.id in size_vars]
+            if len(arrs) == 1 and len(refs) == 1: out.append(arrs[0])
+            if len(arrs) == 2: out.extend(arrs) if any(a_ in guarded for a_ in arrs) else None
+        return out
+    call_line = c.lineno
+    for st in fw.body:
+        if getattr(st, 'lineno', 0) >= call_line: break
+        if isinstance(st, ast.Assert):
+            guarded |= set(cmp_names(st.test, (ast.Eq,)))
+        if isinstance(st, ast.If) and st.body and isinstance(st.body[-1], ast.Raise) and not st.orelse:
+            guarded |= set(cmp_names(st.test, (ast.NotEq,)))
+    for nm in handed:
+        chk.ob('R06.6', f'radial_solver (Python entry): the length of `{nm}` is checked against the radius array before its buffer is handed to cf_radial_solver', nm in guarded,
+               f'`{nm}` reaches cf_radial_solver as a raw pointer without any length check (checked arrays: {sorted(guarded)})', ms.where(c), key=f'R06.6|{nm}', method='AST guard-before-use over the top-level statements of the entry point')
